@@ -79,7 +79,7 @@ Theorem try_set_heartbeat_is_the_tree c hb :
   else (c, false).
 Proof. reflexivity. Qed.
 Theorem tie_hb_first :
-  (forall hb, rs_hb_first hb = g_hb_first hb) \/ (forall hb, rs_hb_first hb = negb (g_hb_first hb)).
+  (forall hb nhb, rs_hb_first hb nhb = g_hb_first hb) \/ (forall hb nhb, rs_hb_first hb nhb = negb (g_hb_first hb)).
 Proof. tie_tac ltac:(unfold rs_hb_first, g_hb_first). Qed.
 Theorem tie_hb_fresh :
   (forall nhb hb, rs_hb_fresh nhb hb = g_hb_fresh nhb hb) \/ (forall nhb hb, rs_hb_fresh nhb hb = negb (g_hb_fresh nhb hb)).
